@@ -121,6 +121,41 @@ func frameSpaceIOS(name string, maxItems int) *frameSpace {
 	return fs
 }
 
+// frameSpaceIOSRoutes: IOS devices with interfaces in the global VRF and in
+// VRF A and B and any subset of routes; the target has routes for some of
+// the VRFs only.  Device routes of a VRF (or of the global table) for which
+// the target specifies no route are out of scope and must stay.
+func frameSpaceIOSRoutes() *frameSpace {
+	base := iosVRFIntfSpace()
+	fs := &frameSpace{}
+	fs.name, fs.model, fs.n = "vrf-routes", "IOS", base.n
+	fs.gen = base.gen
+	vrfOf := func(l string) string {
+		w := strings.Fields(l)
+		if len(w) > 3 && w[2] == "vrf" {
+			return w[3]
+		}
+		return ""
+	}
+	fs.unmanaged = func(i int64) string {
+		a, b := base.gen(i)
+		has := map[string]bool{}
+		for _, l := range strings.Split(b.Main, "\n") {
+			if strings.HasPrefix(l, "ip route ") {
+				has[vrfOf(l)] = true
+			}
+		}
+		var out strings.Builder
+		for _, l := range strings.Split(a.Main, "\n") {
+			if strings.HasPrefix(l, "ip route ") && !has[vrfOf(l)] {
+				out.WriteString(l + "\n")
+			}
+		}
+		return out.String()
+	}
+	return fs
+}
+
 // frameCheck verifies that every unmanaged entry is still present,
 // textually unchanged, in its relative order.
 func frameCheck(m *ciscomodel.Dev, want []*ciscomodel.Entry) error {
@@ -249,6 +284,7 @@ func c07Worker(ctx *core.Ctx) *core.Result {
 	fi := frameSpaceIOS("unmanaged", k)
 	x.runFrame(fi, fa.n)
 	x.runFrame(frameSpaceSharedGroup(), fa.n+fi.n)
+	x.runFrame(frameSpaceIOSRoutes(), fa.n+fi.n+1000000)
 	// PAN-OS: everything outside the targeted vsys
 	px := &panx{ctx: ctx, res: x.res, sc: x.sc, prop: "C07", frame: true, seen: map[string]struct{}{}}
 	px.run([]*panSpace{panVsysSpace(), panFrameSpace()})
@@ -282,7 +318,7 @@ func panFrameSpace() *panSpace {
 func init() {
 	registerSharded("C07", c07Worker, func(tier string) core.Meta {
 		return core.Meta{ID: "C07", Level: "model_checking",
-			Rule: "states = distinct device-model states; device states = managed ACL pair space (len<=2 over 5 lines incl. group references) x all subsets of up to 2 (thorough 4) unmanaged items from an alphabet of 12 ASA / 7 IOS items (plain-named group-policy and tunnel-group chains through two-command objects down to generated filter ACLs, groups and pools, unbound plain-named ACL, group used only by it, group shared with a managed ACL, unknown interfaces - shutdown or not - with ACLs, groups and crypto maps carrying generated names, routes of other family/VRF, unmodelled lines, aaa-server/ldap map, gdoi crypto map); PAN-OS: two-vsys devices, target addressing one; transition = real planner; after every executed command every unmanaged entry must still be present with identical text and sub-commands (PAN-OS: the XML outside the targeted vsys is byte-identical); non-trivial = script non-empty. NSX (objects without the Netspoc prefix) is filtered while reading the manager and is therefore checked end to end by the dialogue engine (C11/C09 simulators), not here",
+			Rule: "states = distinct device-model states; device states = managed ACL pair space (len<=2 over 5 lines incl. group references) x all subsets of up to 2 (thorough 4) unmanaged items from an alphabet of 12 ASA / 7 IOS items (plain-named group-policy and tunnel-group chains through two-command objects down to generated filter ACLs, groups and pools, unbound plain-named ACL, group used only by it, group shared with a managed ACL, unknown interfaces - shutdown or not - with ACLs, groups and crypto maps carrying generated names, routes of other family/VRF, unmodelled lines, aaa-server/ldap map, gdoi crypto map); IOS routes: devices with interfaces in three VRFs and every route subset, targets with routes for some VRFs only (routes of the other VRFs must stay); PAN-OS: two-vsys devices, target addressing one; transition = real planner; after every executed command every unmanaged entry must still be present with identical text and sub-commands (PAN-OS: the XML outside the targeted vsys is byte-identical); non-trivial = script non-empty. NSX (objects without the Netspoc prefix) is filtered while reading the manager and is therefore checked end to end by the dialogue engine (C11/C09 simulators), not here",
 			Assumptions: []string{"unmanaged content is what the statement lists; the check knows exactly which lines it added as unmanaged"},
 			Bounds:      map[string]any{"quick": "<=2 unmanaged items", "thorough": "<=4 unmanaged items"},
 		}
